@@ -146,6 +146,13 @@ class Models:
                     return ex.call_repo(m, [cont, key], {}, lineno)
         if isinstance(cont, ClassV):
             return cont  # generic alias Foo[int]
+        if isinstance(cont, str) and isinstance(key, tuple) and key and key[0] == "slice" and all(x is None or isinstance(x, int) for x in key[1:]):
+            return cont[slice(key[1], key[2], key[3])]
+        if isinstance(cont, str) and isinstance(key, int) and -len(cont) <= key < len(cont):
+            return cont[key]
+        if isinstance(cont, SV) and cont.ty == TStr:
+            # slicing/indexing of a (message) string: opaque string (DESIGN §2.2)
+            return SV(st.fresh_const("strsub", TStr.sort()), TStr)
         raise Unsupported(f"subscript load on {cont!r}[{key!r}]")
 
     def _list_slice(self, ex, o, key):
@@ -719,6 +726,8 @@ class Models:
 
     def _elem_type_of_iterable(self, ex, v):
         st = ex.st
+        if getattr(v, "elem_type", None) is not None:
+            return v.elem_type
         if isinstance(v, DictView):
             return st.heap[v.ref.id].k
         if isinstance(v, Ref):
@@ -1190,7 +1199,7 @@ class Models:
             i = z3.Int("i!c")
             if kind in ("list", "gen"):
                 if gen.ifs:
-                    raise Unsupported("filtered list comprehension over a symbolic sequence")
+                    return self._filtered_sequence(ex, seq, cond, val, bi, kind)
                 if kind == "gen":
                     return IterV(seq.n, lambda j: _subst_value(ex, val, bi, j))
                 t = type_of_value(st, val)
@@ -1254,6 +1263,34 @@ class Models:
         finally:
             fr.env.clear()
             fr.env.update(saved)
+
+    def _filtered_sequence(self, ex, seq, cond, val, bi, kind):
+        """[val(x) for x in seq if cond(x)] over a symbolic sequence: the sub-sequence of the kept
+        elements, described by the strictly increasing source-index map ``src`` and its inverse ``dst``."""
+        from .engine import IterV
+
+        st = ex.st
+        t = type_of_value(st, val)
+        e = t.embed(st, val)
+        n = st.fresh_int("fn")
+        res = st.fresh_const("fel", z3.ArraySort(z3.IntSort(), t.sort()))
+        src = st.fresh_const("fsrc", z3.ArraySort(z3.IntSort(), z3.IntSort()))
+        dst = st.fresh_const("fdst", z3.ArraySort(z3.IntSort(), z3.IntSort()))
+        i, j = z3.Int("i!f"), z3.Int("j!f")
+        cond_at = lambda x: z3.substitute(cond, (bi, x))  # noqa: E731
+        val_at = lambda x: z3.substitute(e, (bi, x))  # noqa: E731
+        st.assume(z3.And(0 <= n, n <= seq.n))
+        st.assume(z3.ForAll([j], z3.Implies(z3.And(0 <= j, j < n), z3.And(0 <= src[j], src[j] < seq.n, cond_at(src[j]), res[j] == val_at(src[j]), dst[src[j]] == j)), patterns=[src[j]]))
+        st.assume(z3.ForAll([i], z3.Implies(z3.And(0 <= i, i < seq.n, cond_at(i)), z3.And(0 <= dst[i], dst[i] < n, src[dst[i]] == i)), patterns=[dst[i]]))
+        st.assume(z3.ForAll([i, j], z3.Implies(z3.And(0 <= i, i < j, j < n), src[i] < src[j]), patterns=[z3.MultiPattern(src[i], src[j])]))
+        if kind == "gen":
+            it = IterV(n, lambda x: t.project(st, res[x]))
+            it.elem_type = t
+            it.fsrc, it.fdst = src, dst
+            return it
+        o = ListObj(t, n, res)
+        o.fsrc, o.fdst = src, dst
+        return st.alloc(o)
 
     def _keys_injective(self, ex, src, ke, bi):
         st = ex.st
